@@ -10,6 +10,14 @@ the token emulator.  For every signature of every response bundle:
     (mechanism and input octets of every C_Sign, octet for octet).
 A grid makes sure all of RSA/SHA-256, RSA/SHA-512, P-256, P-384 x hashing on host / on token x token
 profiles (private object with/without public attributes, wrapped/bare EC point) occur in every run.
+
+Environment independence (`tz_scenarios`; harness/envtz.py): further well-formed scenarios are signed with the PROCESS time zone
+switched (lib.ProcessTZ) to each of America/New_York, Australia/Lord_Howe, Asia/Kolkata, Europe/Berlin, the first bundle's inception
+or the last bundle's expiration placed in mid-January, mid-July and on the +-1 h lattice around the zone's DST switches (so that
+inceptions / expirations fall inside and outside the daylight-saving period).  sign_bundles() / create_skr() and skr_to_xml() run under
+the switched zone; everything is judged exactly as above: dnspython (times taken as integers) must validate every signature over the
+published keys, the written file must carry the same, the fields must be the bundle's, and the model -- in which instants are integers --
+must predict the same C_Sign octets.
 """
 
 from __future__ import annotations
@@ -18,6 +26,7 @@ import base64
 from typing import Any
 
 import ceremony as C
+import envtz
 import lib
 import signer_scenarios as S
 from lib import Result
@@ -27,6 +36,7 @@ ASSUMPTIONS = [
     "unforgeability of RSA PKCS#1 v1.5 / ECDSA and collision resistance of SHA-2 are assumptions, not theorems",
     "the token emulator stands in for a PKCS#11 device (healthy-token hypothesis: C_Sign implements the mechanism)",
     "dnspython 2.8 is the independent RFC 4034/3110/6605 validator",
+    "the process time zone is switched with TZ + tzset (lib.ProcessTZ, which verifies that libc's localtime follows); zones are the four of lib.non_utc_zones()",
 ]
 TRUSTED = ["harness/p11emu.py token emulator", "dnspython validate_rrsig as oracle"]
 
@@ -52,14 +62,14 @@ def dnspython_validate(bundle: Any, sig: Any) -> str | None:
         sig.algorithm.value,
         sig.labels,
         sig.original_ttl,
-        int(sig.signature_expiration.timestamp()),
-        int(sig.signature_inception.timestamp()),
+        lib.dt_us(sig.signature_expiration) // 10**6,  # exact integer arithmetic on the aware datetime: no local time involved
+        lib.dt_us(sig.signature_inception) // 10**6,
         sig.key_tag,
         dns.name.from_text(sig.signers_name),
         base64.b64decode(sig.signature_data),
     )
     try:
-        dns.dnssec.validate_rrsig(rrset, rrsig, {root: rrset}, now=int(sig.signature_inception.timestamp()) + 1)
+        dns.dnssec.validate_rrsig(rrset, rrsig, {root: rrset}, now=lib.dt_us(sig.signature_inception) // 10**6 + 1)
     except Exception as exc:  # noqa: BLE001
         return f"{type(exc).__name__}: {exc}"
     # and specifically by the *named* key: the only candidate with that tag+algorithm must be the signer's record
@@ -96,7 +106,10 @@ def file_level_problems(xml_text: str, in_memory_bundles: list[Any]) -> list[str
         raise KeyError(name)
 
     def ts(t: str) -> int:
-        return int(datetime.fromisoformat(t.replace("Z", "+00:00")).timestamp())
+        dt = datetime.fromisoformat(t.replace("Z", "+00:00"))
+        if dt.tzinfo is None:
+            raise ValueError(f"time without UTC offset in the file: {t}")  # a local time would make the file's meaning depend on the reader's zone
+        return lib.dt_us(dt) // 10**6
 
     bad: list[str] = []
     root = ET.fromstring(xml_text)
@@ -145,6 +158,31 @@ def grid(r: Any) -> list[S.Scenario]:
     return out
 
 
+def tz_scenarios(r: Any, tier: str) -> list[S.Scenario]:
+    """Well-formed scenarios to be signed under a switched process time zone (sc.meta["tz"]): per zone the probe instants of a year
+    (mid-January, mid-July, T-1h / T / T+1h of both DST switches, and -- thorough -- more of the lattice) become the first bundle's
+    inception or the last bundle's expiration; bundles follow every 10 days and are valid 21 days, so several times per scenario lie
+    inside resp. outside the daylight-saving period.  Mostly RSA (an ECDSA signature is refused by dnspython anyway: finding F4)."""
+    out = []
+    algs = [8, 10, 8, 13, 8, 10, 8, 14]
+    i = 0
+    for zname, _posix, _off in lib.non_utc_zones():
+        year = r.choice(envtz.YEARS)
+        for p in envtz.sample(zname, year, r, 8 if tier == "quick" else 30):
+            alg = algs[i % len(algs)]
+            i += 1
+            sc = S.gen_scenario(r, quick=True, n_bundles=r.choice([1, 2, 3]), force_alg=alg)
+            nb = len(sc.layout)
+            if i % 2:
+                start, probed = p["t"], "first-inception"
+            else:
+                start, probed = p["t"] - 21 * 86400 - (nb - 1) * 10 * 86400, "last-expiration"
+            sc.start = lib.us_dt(start * 10**6)  # aware UTC, from the integer
+            sc.meta.update(tz=zname, probe=p["label"], probed=probed, dst=p["dst"], year=year)
+            out.append(sc)
+    return out
+
+
 def run(tier: str, driver_ok: bool) -> Result:
     res = Result("C01")
     res.rule = (
@@ -152,12 +190,15 @@ def run(tier: str, driver_ok: bool) -> Result:
         "1..3 KSKs RSA 1024..4096 with fixture exponents / P-256 / P-384, arbitrary schemas, 1..2 modules x 1..3 slots); every signature of "
         "every response bundle judged by dnspython; RSA scenarios alternately through create_skr() + skr_to_xml(), the written text parsed "
         "with ElementTree and judged by dnspython over the keys in the file; key-tag specials (carry, revoked carry, twin signers, ZSK = KSK tag); "
+        "scenarios signed (and written) with the process time zone switched to America/New_York / Australia/Lord_Howe / Asia/Kolkata / "
+        "Europe/Berlin, first inception or last expiration in mid-January, mid-July and +-1 h around the zone's DST switches; "
         "non-trivial = distinct scenario"
     )
     r = lib.rng("C01")
     scenarios = grid(r) + S.special_scenarios(r)
     for _ in range(60 if tier == "quick" else 700):
         scenarios.append(S.gen_scenario(r, quick=(tier == "quick")))
+    scenarios += tz_scenarios(r, tier)
     runs = []
     nsig = 0
     nfile = 0
@@ -165,29 +206,39 @@ def run(tier: str, driver_ok: bool) -> Result:
         # RSA scenarios go through create_skr() + the SKR writer every second time (and always for the key-tag specials):
         # the property is observed at the written file too.  (create_skr cannot state an ECDSA KSK policy.)
         what = "create_skr" if sc.meta["alg"] in (8, 10) and (si % 2 == 0 or sc.meta.get("special")) else "sign_bundles"
-        x = S.run_sign(sc, what)
+        tz = sc.meta.get("tz")
+        xml_text: Any = None
+        with envtz.zone(tz):  # /repo code runs under the scenario's process time zone (None: the process as it is); the judging below does not
+            x = S.run_sign(sc, what)
+            if what == "create_skr" and "ok" in x["impl"]:
+                from kskm.skr.output import skr_to_xml
+
+                xml_text = lib.run_impl(lambda: skr_to_xml(x["objs"]), str)
         x["case"] = {"what": what, "scenario": S.describe(sc)}
         x["what"] = what
         runs.append(x)
+        if tz is not None:
+            res.bump("tz:signed-under:" + tz)
+            res.bump("tz:probed-instant-" + ("inside" if sc.meta["dst"] else "outside") + "-daylight-saving-time")
         if what == "create_skr" and "ok" in x["impl"]:
-            from kskm.skr.output import skr_to_xml
-
             resp = x["objs"]
             x["objs"] = list(resp.bundles)
             fam = "rsa"
             try:
-                probs = file_level_problems(skr_to_xml(resp), x["objs"])
+                if "ok" not in xml_text:
+                    raise RuntimeError(f"skr_to_xml failed: {xml_text}")
+                probs = file_level_problems(xml_text["ok"], x["objs"])
             except Exception as exc:  # noqa: BLE001
                 probs = [f"the written SKR could not be read by a standard XML parser / judged: {type(exc).__name__}: {exc}"]
             nfile += 1
             if probs:
-                res.violation("the written SKR file does not carry valid RRSIGs over exactly the DNSKEY set it publishes", x["case"], key=f"file:{fam}", broken=probs[:6])
+                res.violation("the written SKR file does not carry valid RRSIGs over exactly the DNSKEY set it publishes", x["case"], key=f"file:{fam}", broken=probs[:6], process_time_zone=tz or "(unchanged)")
         res.count(x["case"])
         alg = sc.meta["alg"]
         res.bump(f"alg:{alg}")
         impl = x["impl"]
         if "ok" not in impl:
-            res.violation("well-formed request, schema and healthy keys: signing did not complete", x["case"], key=f"incomplete:alg{alg}", impl=impl)
+            res.violation("well-formed request, schema and healthy keys: signing did not complete", x["case"], key=f"incomplete:alg{alg}", impl=impl, process_time_zone=tz or "(unchanged)")
             continue
         res.bump(what)
         mechs = sorted({rec["mechanism"] for rec in x["log"] if rec["op"] == "sign"})
@@ -204,6 +255,7 @@ def run(tier: str, driver_ok: bool) -> Result:
                         key=f"{fam}:alg{alg}",
                         why=why,
                         bundle=C.bundle_sorted_j(rb),
+                        process_time_zone=tz or "(unchanged)",
                     )
                 bad = []
                 if sig.signature_inception != qb.inception or sig.signature_expiration != qb.expiration:
@@ -215,7 +267,7 @@ def run(tier: str, driver_ok: bool) -> Result:
                 if sig.type_covered.value != 48:
                     bad.append("type covered")
                 if bad:
-                    res.violation("signature fields differ from the documented values", x["case"], key="fields", broken=bad)
+                    res.violation("signature fields differ from the documented values", x["case"], key="fields", broken=bad, process_time_zone=tz or "(unchanged)")
         if len(res.samples) < 2:
             res.sample({"case": x["case"], "signatures_validated": nsig, "sign_ops": [{"mechanism": rec["mechanism"], "data_len": len(rec["data"]) // 2} for rec in x["log"] if rec["op"] == "sign"][:4]})
     res.stats["signatures_judged_by_dnspython"] = nsig
